@@ -512,7 +512,7 @@ theorem Pres.readMoov : Pres readMoov := by
   pres
   all_goals exact Pres.innerLoop Pres.moovHandler .brk _
 theorem Pres.readMdat : Pres readMdat := by
-  unfold Bmff.readMdat
+  unfold Bmff.readMdat Bmff.mdatExifBody
   pres
   all_goals first | exact Pres.readExifHeader _ | exact Pres.callback _ _
 theorem Pres.dispatch (t : Bytes) : Pres (dispatch t) := by
@@ -659,7 +659,7 @@ attribute [irreducible] Closes
 theorem Closes.readMeta : Closes readMeta := by unfold Bmff.readMeta; closes
 theorem Closes.readMoov : Closes readMoov := by unfold Bmff.readMoov; closes
 theorem Closes.readUUIDBox : Closes readUUIDBox := by unfold Bmff.readUUIDBox; closes
-theorem Closes.readMdat : Closes readMdat := by unfold Bmff.readMdat; closes
+theorem Closes.readMdat : Closes readMdat := by unfold Bmff.readMdat Bmff.mdatExifBody; closes
 theorem Closes.dispatch (t : Bytes) : Closes (dispatch t) := by
   unfold Bmff.dispatch
   split
